@@ -153,6 +153,16 @@ CHECKS = {
    note="Trusted: TLC, the digest (fixed-key hash of the full ordered Debug/JSON rendering of the output, GDS dates "
         "normalised). The design-level model is bound to the code only through the recorded runs.",
    tech="TLA+ nondeterminism model + functional-dependency trace spec; I->S validation of recorded runs across processes"),
+ "C18": dict(cat="model_checking", ref="§6 C18",
+   text="SerdeModel.tla states serde's attribute semantics (skip_serializing[_if], default, Option) and TLC evaluates "
+        "Lossless(field, value class) over the field table extracted from gds21/lef21 sources on every run, naming any field "
+        "whose attributes cannot round-trip; the value space (GDSII libraries of MC_GdsGen, LEF libraries of MC_LefGen) goes "
+        "through the crate's own to_string/from_str and save/open in JSON and YAML: ==, field-wise projection with doubles as "
+        "bit patterns, and equal re-written GDSII bytes; plus 70 JSON/YAML-special strings in every string field and random "
+        "in-range doubles in every real field.",
+   note="Trusted: TLC, the regex-based attribute extractor, projections. serde_json/serde_yaml themselves are black boxes "
+        "(DESIGN §6 C18 'honest limit'): the spec contributes attribute semantics and enumeration, not a model of the text formats.",
+   tech="TLA+ attribute-semantics spec over extracted field table (TLC) + spec-generated value space; S->I replay"),
 }
 
 PENDING = {}
